@@ -179,6 +179,10 @@ def run(tier, seed):
     labels6 = {c[4]: (c[0], c[1], c[2], c[3]) for i, c in enumerate(g6) if i in k6}
     do_source('S6-granularity', '\n'.join(c[3] for i, c in enumerate(g6) if i in k6) + '\n', sorted(labels6), [(2000, 2050)], labels=labels6, stricts=(False, True),
               arduino={'step': 3600, 'win': 2 * 3600})
+    # ---- S9: 3..9 eras inside one year (kMaxMatches)
+    e9 = mutants.many_eras()
+    labels9 = {c[4]: (c[0], c[1], c[2], c[3]) for c in e9}
+    do_source('S9-eras', '\n'.join(c[3] for c in e9) + '\n', sorted(labels9), [(2000, 2050)], labels=labels9, arduino={'step': 3600, 'win': 2 * 3600})
     # ---- S8: FORMAT x LETTER product (abbreviation assembly)
     f8 = mutants.format_letters()
     kept8, rej8 = zic_filter([(i, c[3]) for i, c in enumerate(f8)], 'S8')
